@@ -77,6 +77,46 @@ def check(ctx):
                        f'test is never true, no reference atom is selected and the drift is the mean of an empty selection (NaN)')
             else:
                 ctx.ob('R1', e['where'], norm_text(e['node']) + f' [{which}]', True, f'{ik} looked up among {ck}s')
+    # a `str | Collection[str]` parameter may be one symbol: iterating it (set operations, set(x), for ... in x) splits 'Li' into 'L', 'i'
+    for fi_ in (fd, ff, ctx.fn(f'{TRAJ}.apply_drift_correction')):
+        cfg = ctx.cfg(fi_.qualname)
+        a_ = fi_.node.args
+        for prm in a_.args + a_.kwonlyargs:
+            ann = norm_text(prm.annotation) if prm.annotation is not None else ''
+            if not ('str' in ann and 'Collection' in ann):
+                continue
+            for n_ in ast.walk(fi_.node):
+                use = None
+                if isinstance(n_, ast.Call):
+                    fn_ = n_.func
+                    args_ = [x for x in n_.args if isinstance(x, ast.Name) and x.id == prm.arg]
+                    if args_ and isinstance(fn_, ast.Attribute) and fn_.attr in ('difference', 'union', 'intersection', 'symmetric_difference',
+                                                                                  'issubset', 'issuperset', 'update', 'difference_update', 'extend'):
+                        use = n_
+                    elif args_ and isinstance(fn_, ast.Name) and fn_.id in ('set', 'list', 'tuple', 'sorted', 'frozenset'):
+                        use = n_
+                elif isinstance(n_, (ast.For, ast.comprehension)) and isinstance(n_.iter, ast.Name) and n_.iter.id == prm.arg:
+                    use = n_.iter
+                elif isinstance(n_, ast.BinOp) and isinstance(n_.op, (ast.Sub, ast.BitAnd, ast.BitOr)) and any(
+                        isinstance(x, ast.Name) and x.id == prm.arg for x in (n_.left, n_.right)):
+                    use = n_
+                if use is None:
+                    continue
+                nid = cfg.node_of(use)
+                guarded = False
+                if nid is not None:
+                    for g_, pol in cfg.guards(nid):
+                        t_ = norm_text(g_).replace(' ', '')
+                        if t_ == f'isinstance({prm.arg},str)' and pol is False:
+                            guarded = True
+                # normalisation earlier on every path: `if isinstance(x, str): x = [x]`
+                for s_ in ast.walk(fi_.node):
+                    if isinstance(s_, ast.If) and norm_text(s_.test).replace(' ', '') == f'isinstance({prm.arg},str)' and s_.lineno < use.lineno \
+                            and any(isinstance(w, ast.Assign) and any(isinstance(t, ast.Name) and t.id == prm.arg for t in w.targets) for w in s_.body):
+                        guarded = True
+                ctx.ob('R1', fi_, use, guarded, f'`{prm.arg}` is normalised to a collection before it is iterated' if guarded else
+                       f'`{prm.arg}` may be a single symbol string (`{ann}`); here it is iterated, so "Li" is treated as the symbols "L" and "i": '
+                       f'naming the floating species by a plain string selects the wrong reference atoms')
     # ---- R2
     sets = {}
     for name, fi in ctx.p.cls(TRAJ).methods.items():
@@ -129,6 +169,14 @@ def check(ctx):
     if not inits:
         ctx.ob('R4', fa, 'constructor', None, 'construction of the corrected trajectory not found')
         return
+    # every path returns the newly built trajectory
+    for r_ in ast.walk(fa.node):
+        if isinstance(r_, ast.Return) and r_.value is not None:
+            v_ = ita.value_of(r_.value)
+            fresh_obj = v_ is not None and v_.ty == 'obj' and v_.alloc == fa.qualname and not v_.symbolic
+            if not fresh_obj:
+                ctx.ob('R4', fa, r_, False, f'`{norm_text(r_)}` hands back an existing trajectory instead of the corrected one: on this path the '
+                                            f'drift is not removed (and the caller receives an alias of the source)')
     e = inits[-1]
     kw = dict(e['kwargs'])
     for ce in ita.events:
